@@ -154,7 +154,8 @@ def check_case(case):
         # potable: the same definition in [Pair], [EAM-Embed], [EAM-Density]
         m = {"tabulation": {"target": "setfl", "nr": 5, "cutoff": 2.0, "nrho": 5, "cutoff_rho": 2.0},
              "pair": [("Al", "Al", pd)], "embed": [("Al", pd)], "density": [("Al", pd)]}
-        txt = render.model_text(m)
+        # (every third case with the parameters spelled as other programs print them: '.3', '1000.', '+32.', '1E-05')
+        txt = render.model_text(m, dict(render.DEFAULT_STYLE, numspell=(len(repr(p)) % 3 == 0)))
         fns = libroute.functions(libroute.read_text(txt))
         routes["potable"] = fns["pair:Al-Al"]
         routes["potable_embed"] = fns["embed:Al"]
